@@ -29,7 +29,11 @@ func (n mnode) String() string {
 	case "leaf":
 		return fmt.Sprintf("%v", n.leaf())
 	case "cond":
-		return fmt.Sprintf("C(%s %d %s)", n.Kw, n.Op, n.Kids[0])
+		d := ""
+		if n.Deco {
+			d = "*"
+		}
+		return fmt.Sprintf("C%s(%s %d %s)", d, n.Kw, n.Op, n.Kids[0])
 	}
 	p := make([]string, len(n.Kids))
 	for i, k := range n.Kids {
@@ -61,6 +65,9 @@ func (n mnode) leaf() any {
 }
 
 func mOp(i int) stackage.Operator {
+	if i == -1 {
+		return nil // no operator at all
+	}
 	if i == 7 {
 		return userOp{"~=", "approx"}
 	}
@@ -72,7 +79,12 @@ func (n mnode) build() any {
 	case "leaf":
 		return n.leaf()
 	case "cond":
-		return stackage.Cond(n.Kw, mOp(n.Op), n.Kids[0].build())
+		c := stackage.Cond(n.Kw, mOp(n.Op), n.Kids[0].build())
+		if n.Deco {
+			// flags set after the fact must not change what Unmarshal hands out
+			c.SetNoNesting(true).SetParen(true).SetNoPadding(true).SetEncap("'").SetID("cid").SetCategory("ccat")
+		}
+		return c
 	}
 	var s stackage.Stack
 	if n.Cap > 0 {
@@ -363,6 +375,18 @@ func c04Trees(c *Ctx) []mnode {
 		for j := (i % stride); j < len(elems); j += stride {
 			trees = append(trees, mnode{T: "stack", Kind: kindNames[ki%5], Kids: []mnode{e, elems[j]}})
 			ki++
+		}
+	}
+	// Conditions that fail Valid (no keyword, no operator, operator out of range) and decorated ones,
+	// with primitive, Stack and Condition expressions
+	for i := 0; i < len(d1); i += 3 {
+		st := d1[i]
+		for _, cd := range []mnode{
+			{T: "cond", Kw: "", Op: 1, Kids: []mnode{st}}, {T: "cond", Kw: "nokw", Op: -1, Kids: []mnode{st}}, {T: "cond", Kw: "badop", Op: 9, Kids: []mnode{st}},
+			{T: "cond", Kw: "", Op: 0, Kids: []mnode{leaves[i%len(leaves)]}}, {T: "cond", Kw: "deco", Op: 2, Deco: true, Kids: []mnode{st}},
+			{T: "cond", Kw: "deco2", Op: 3, Deco: true, Kids: []mnode{{T: "cond", Kw: "in", Op: 1, Deco: true, Kids: []mnode{leaves[0]}}}},
+		} {
+			trees = append(trees, mnode{T: "stack", Kind: kindNames[i%5], Kids: []mnode{cd}}, mnode{T: "stack", Kind: kindNames[(i+1)%5], Kids: []mnode{leaves[0], cd, st}})
 		}
 	}
 	// depth 3 chains and options that only relax clause (4)
